@@ -23,7 +23,7 @@ import (
 
 // VM-side fault kinds (a refinement of the model's kinds).
 const (
-	VNone = iota
+	VNone           = iota
 	VRaise          // step hook: L.RaiseError at instruction boundary k
 	VCancel         // step hook: fire the SimContext at instruction boundary k (sticky)
 	VGoPanicString  // host call h: panic("...")
@@ -143,10 +143,10 @@ var _ context.Context = (*SimContext)(nil)
 
 // SnapRec is one structural snapshot taken by the snap host function.
 type SnapRec struct {
-	Thread    *lua.LState
-	Depth     int // number of call frames of the thread, excluding snap's own frame
-	CallerLB  int // LocalBase of the calling Lua frame
-	HasErrFn  bool
+	Thread   *lua.LState
+	Depth    int // number of call frames of the thread, excluding snap's own frame
+	CallerLB int // LocalBase of the calling Lua frame
+	HasErrFn bool
 }
 
 type runawayPanic struct{}
@@ -161,24 +161,25 @@ type Host struct {
 	ids      map[lua.LValue]int
 	nextID   [4]int
 
-	Steps       int64 // verifStep calls (instruction boundaries) so far, all threads
-	Dispatches  int64
-	HostCalls   int64
-	MaxSteps    int64
-	Runaway     bool
-	Kind        int
-	At          int64 // step index (VRaise/VCancel) or host call index (host kinds)
-	Fired       bool
-	FiredStep   int64
-	FiredDepth  int   // frame count over the running thread and its resume chain at the instant of firing
-	StepsAfter  int64 // verifStep calls after the fire (cancellation)
-	DispAfter   int64 // dispatches after the fire (cancellation)
-	FiredLine   int
-	Snaps       []SnapRec
-	Violations  []string // structural violations noticed by host functions
-	MaxDepth    int
-	MaxTop      int
-	TrackLimits bool
+	Steps             int64 // verifStep calls (instruction boundaries) so far, all threads
+	Dispatches        int64
+	HostCalls         int64
+	MaxSteps          int64
+	Runaway           bool
+	Kind              int
+	At                int64 // step index (VRaise/VCancel) or host call index (host kinds)
+	Fired             bool
+	FiredStep         int64
+	FiredDepth        int   // frame count over the running thread and its resume chain at the instant of firing
+	StepsAfter        int64 // verifStep calls after the fire (cancellation)
+	DispAfter         int64 // dispatches after the fire (cancellation)
+	FiredLine         int
+	Snaps             []SnapRec
+	Violations        []string // structural violations noticed by host functions
+	MaxDepth          int
+	MaxThreadDepth    int
+	MaxTop            int
+	TrackLimits       bool
 	NilDerefNormalize bool
 }
 
@@ -251,6 +252,9 @@ func (h *Host) onStep(L *lua.LState) {
 	if h.TrackLimits {
 		if d := lua.VerifChainDepth(L); d > h.MaxDepth {
 			h.MaxDepth = d
+		}
+		if d := lua.VerifDepth(L); d > h.MaxThreadDepth {
+			h.MaxThreadDepth = d
 		}
 		if t := lua.VerifRegTop(L); t > h.MaxTop {
 			h.MaxTop = t
@@ -490,9 +494,9 @@ func Compile(src string) (*lua.FunctionProto, error) {
 
 // Outcome of running a chunk from Go.
 type Outcome struct {
-	TopError string // canonical rendering of the error that left the chunk, "" if none
-	RawError string
-	Escaped  string // non-empty: a Go panic left the protected entry point
+	TopError    string // canonical rendering of the error that left the chunk, "" if none
+	RawError    string
+	Escaped     string // non-empty: a Go panic left the protected entry point
 	ErrIsCancel bool
 }
 
